@@ -7,7 +7,7 @@ from .deb822model import Model, KEY_RE
 
 META = {
     'design_ref': 'DESIGN.md §5 C08',
-    'technique': 'regular-language emptiness/inclusion: language of the values accepted by validate_input (paths of the function with helpers inlined and locals substituted; per-line loop summarised by the paths of its body; per-path number of unchecked lines) composed with the dump template extracted from _dump_format, split into reader lines (both newline conventions) and intersected with the reader regexes; CFG dominance rule on the __setitem__ resolved through the MRO: the validation (direct or through a hook method) dominates every statement that changes the object; who-may-catch rule: an assignment that runs the validator is not enclosed by a handler for ValueError; who-may-write rule for the value table of the mapping; positional/keyword agreement rule for the *args wrappers of the paragraph constructor (what is read from kwargs by name is read at its position too)',
+    'technique': 'regular-language emptiness/inclusion: language of the values accepted by validate_input (paths of the function with helpers inlined and locals substituted; per-line loop summarised by the paths of its body; per-path number of unchecked lines) composed with the dump template extracted from _dump_format, split into reader lines (both newline conventions) and intersected with the reader regexes; CFG dominance rule on the __setitem__ resolved through the MRO: the validation (direct or through a hook method) dominates every statement that changes the object; who-may-catch rule: an assignment that runs the validator is not enclosed by a handler for ValueError; who-may-write rule for the value table of the mapping; positional/keyword agreement rule for the *args wrappers of the paragraph constructor (what is read from kwargs by name is read at its position too); hand-over of the wrapped constructor arguments interpreted under five calling conventions',
     'level_text': 'Static decision over all strings of the property\'s domain (printable text, ":", "#", blank, tab, CR, LF '
                   'and printable non-ASCII classes): no line of a dumped accepted value other than the first is read as a '
                   'field, a paragraph end, a PGP header or a comment, and the first line is read as the same key.  Also that '
